@@ -18,6 +18,7 @@ import (
 //	s<NNN>  that status with a short body (s200 on /refresh = "wrong success status")
 //	closed  the connection is closed without a response
 //	badjson success status, body is not JSON
+//	hang    the request is accepted and never answered (until the client gives up, at most 8 s)
 type Answer struct {
 	Class     string   `json:"class"`
 	ExpiresIn int64    `json:"expires_in,omitempty"` // redeem / refresh
@@ -164,6 +165,13 @@ func (fa *FakeAuth) serve(w http.ResponseWriter, r *http.Request) {
 		a = Answer{Class: "s500"}
 	}
 	success := map[string]int{"redeem": 200, "refresh": 201, "validate": 200, "profile": 200}[ep]
+	if a.Class == "hang" {
+		select {
+		case <-r.Context().Done():
+		case <-time.After(8 * time.Second):
+		}
+		a.Class = "closed"
+	}
 	switch {
 	case a.Class == "closed":
 		if hj, ok := w.(http.Hijacker); ok {
